@@ -1,6 +1,6 @@
 /-! Model of how the file datastore turns user-supplied names into a path inside its root:
 `FileTemplate.format` for the default template (`datastore/file_templates.py`: spaces → `_`,
-`/` → `_` except in the leading `{run:/}` field, `.` → `_` and `#` → `HASH` in the file name,
+`/` → `_` except in the leading `{run:/}` field, `.` → `_` in the file name, `#` → `HASH` everywhere,
 `os.path.normpath`, absolute results re-rooted) and the containment test of `Location`
 (`_location.py`: a path that “jumps out” of the root is refused).  Core Lean only. -/
 namespace PathNorm
@@ -28,14 +28,15 @@ def sanitize (keepSlash : Bool) (v : String) : String := String.ofList (sanitize
 def format (run : String) (dirs files : List String) : List String :=
   let file := "_".intercalate ((files ++ [run]).map (sanitize false))
   let file := (file.replace "." "_").replace "#" "HASH"
-  let out := sanitize true run ++ "/" ++ "/".intercalate (dirs.map (sanitize false)) ++ "/" ++ file
+  let head := (sanitize true run ++ "/" ++ "/".intercalate (dirs.map (sanitize false))).replace "#" "HASH"
+  let out := head ++ "/" ++ file
   normComps (out.startsWith "/") (out.splitOn "/")
 
-/-- `Location(root, path)`: refused when the path leaves the root. -/
-def escapes (comps : List String) : Bool := comps.head? == some ".."
-
-def place (run : String) (dirs files : List String) : Except Unit (List String) :=
-  let p := format run dirs files
-  if escapes p then .error () else .ok p
+/-- `Location(root, path)`: the path is joined to the root and normalised (`..` may well step out of
+the root *and back in*); it is refused unless the result lies below the root.  `root` = the components
+of the root's absolute path. -/
+def place (root : List String) (run : String) (dirs files : List String) : Except Unit (List String) :=
+  let full := normComps true (root ++ format run dirs files)
+  if root.isPrefixOf full then .ok (full.drop root.length) else .error ()
 
 end PathNorm
